@@ -331,6 +331,23 @@ func valuesOf(s *jShape, r *rng, limit int) []reflect.Value {
 			}
 			add(m)
 		}
+		// a large one (sorting, growing and iteration beyond the first bucket): 24 keys of small elements
+		if len(elems) > 0 {
+			m := reflect.MakeMap(t)
+			for i := 0; i < 24; i++ {
+				var kv reflect.Value
+				switch s.K {
+				case "mapstr":
+					kv = reflect.ValueOf(fmt.Sprintf("k%02d", (i*7)%24))
+				case "mapint":
+					kv = reflect.ValueOf((i*7)%24 - 12)
+				default:
+					kv = reflect.ValueOf(TMK{fmt.Sprintf("t%02d", (i*7)%24)})
+				}
+				m.SetMapIndex(kv, elems[i%min(len(elems), 3)])
+			}
+			out = append(out, m)
+		}
 	case "struct1":
 		for _, e := range elems {
 			v := reflect.New(t).Elem()
